@@ -54,6 +54,13 @@ def handle (line : String) : String :=
       (match popFold (commonDom (fun n => par.getD n 0) (2 * par.length + 4)) ns with
        | some r => toString r | none => "none")
     | _, _ => "bad-op"
+  | ["cdomg", par, nums, ns] => match pairs "=" par, pairs "=" nums, csv ns with
+    | some par, some nums, some ns =>
+      let idom := fun n => (par.find? (fun p => p.1 == n)).map Prod.snd
+      let fuel := 2 * (nums.foldl (fun m p => max m p.2) 0) + 2
+      (match popFoldM (commonDomG idom (lookupD nums) fuel) ns with
+       | some r => toString r | none => "err")
+    | _, _, _ => "bad-op"
   | ["lfollow", nodes, nums, loop] => match lnodes nodes, pairs "=" nums, csv loop with
     | some nodes, some nums, some loop =>
       let info := fun n => match nodes.find? (fun p => p.1 == n) with
